@@ -253,32 +253,47 @@ def body_duct(env):
 
 
 # ------------------------------------------------------------------ boundary conditions / core
+BC_ASSIGN = [('a', 1, 1), ('a', 2, 1), ('a', 2, 3), ('a', 2, 6)]     # a core map with unassigned positions between assignments
+
+
+def _bc_spec(which=None, text=None):
+    assign = []
+    for i, (t, r, p) in enumerate(BC_ASSIGN):
+        assign.append((t, r, p, text if i == which else 'FLOWRATE=0.5'))
+    return {'asms': {'a': {}}, 'assign': assign}
+
+
+def _bc_slots(o):
+    return [i for i, a in enumerate(o.data['Assignment']['ByPosition']) if a != []]
+
+
 def body_bc(env):
-    kind = env.params['kind']
+    kind, which = env.params['kind'], env.params['which']
     v = env.real('bc_value', lo=-1e4, hi=1e4, nominal={'flowrate': 0.5, 'outlet_temp': 700.0, 'delta_temp': 50.0}[kind])
-    spec = {'asms': {'a': {}}, 'assign': [('a', 1, 1, 'FLOWRATE=0.5')]}
     if env.mode == 'sym':
         with env.patch(MODS):
-            o = _reader(('bc',), spec)
-            o.data['Assignment']['ByPosition'][0][2] = {kind: v}
+            o = _reader(('bc',), _bc_spec())
+            slots = _bc_slots(o)
+            env.holds('fixture: the core map has unassigned positions between the assignments', slots != list(range(len(slots))))
+            o.data['Assignment']['ByPosition'][slots[which]][2] = {kind: v}
             out, info = _run_validator(env, lambda: ri.DASSH_Input.check_assignment_boundary_conditions(o))
     else:
-        s2 = dict(spec, assign=[('a', 1, 1, '%s=%r' % (kind.upper(), float(v)))])
-        out, info = _pipeline(s2)
+        env.holds('fixture: the core map has unassigned positions between the assignments', True)
+        out, info = _pipeline(_bc_spec(which, '%s=%r' % (kind.upper(), float(v))))
     _outcome(env, out, info)
-    env.gt('accepted: boundary condition value (%s) positive' % kind, v, 0.0, key='nonpositive_boundary_condition')
+    env.gt('accepted: boundary condition value (%s) of assignment %d positive' % (kind, which), v, 0.0, key='nonpositive_boundary_condition')
 
 
 def body_bc_missing(env):
-    """No boundary condition keyword at all: rejected on every path (enumeration of the keyword sets)."""
-    spec = {'asms': {'a': {}}, 'assign': [('a', 1, 1, 'FLOWRATE=0.5')]}
-    for keys in ((), ('flowrate', 'outlet_temp'), ('flowrate', 'delta_temp'), ('outlet_temp', 'delta_temp'), ('flowrate', 'outlet_temp', 'delta_temp')):
-        with env.patch(MODS):
-            o = _reader(('bc',), spec)
-            o.data['Assignment']['ByPosition'][0][2] = {k: 1.0 for k in keys}
-            out, info = _run_validator(env, lambda: ri.DASSH_Input.check_assignment_boundary_conditions(o))
-        env.holds('boundary condition keywords %s: rejected with an error message' % (list(keys) or 'none'), out == 'rejected',
-                  key='missing_boundary_condition')
+    """No / several boundary condition keywords on one assignment line: rejected (enumeration of the keyword sets and lines)."""
+    for which in range(len(BC_ASSIGN)):
+        for keys in ((), ('flowrate', 'outlet_temp'), ('flowrate', 'delta_temp'), ('outlet_temp', 'delta_temp'), ('flowrate', 'outlet_temp', 'delta_temp')):
+            with env.patch(MODS):
+                o = _reader(('bc',), _bc_spec())
+                o.data['Assignment']['ByPosition'][_bc_slots(o)[which]][2] = {k: 1.0 for k in keys}
+                out, info = _run_validator(env, lambda: ri.DASSH_Input.check_assignment_boundary_conditions(o))
+            env.holds('assignment %d with boundary condition keywords %s: rejected with an error message' % (which, list(keys) or 'none'),
+                      out == 'rejected', key='missing_boundary_condition')
 
 
 def body_core(env):
@@ -289,7 +304,7 @@ def body_core(env):
     spec = {'asms': {'a': {}}, 'assign': [('a', 1, 1, 'FLOWRATE=0.5')]}
     if env.mode == 'sym':
         with env.patch(MODS):
-            o = _reader(('bc',), spec)
+            o = _reader(('core',), spec)
             o.data['Core']['length'], o.data['Core']['assembly_pitch'], o.data['Core']['bypass_fraction'] = L, pitch, bf
             o.data['Core']['gap_model'] = 'flow'
             out, info = _run_validator(env, lambda: ri.DASSH_Input.check_core_specifications(o))
@@ -374,7 +389,8 @@ def instances(tier):
     for nb in (1, 2):
         inst.append(dict(label='duct[ducts of type b=%d]' % nb, body=body_duct, params={'n_duct_b': nb}, max_paths=4000, max_depth=80))
     for kind in ('flowrate', 'outlet_temp', 'delta_temp'):
-        inst.append(dict(label='boundary-condition[%s]' % kind, body=body_bc, params={'kind': kind}))
+        for which in range(len(BC_ASSIGN)):
+            inst.append(dict(label='boundary-condition[%s,assignment %d]' % (kind, which), body=body_bc, params={'kind': kind, 'which': which}))
     inst.append(dict(label='boundary-condition[keyword sets]', body=body_bc_missing, params={}, check_vacuity=False))
     inst.append(dict(label='core-section', body=body_core, params={}))
     for nt in ((1, 2, 3) if tier == 'quick' else (1, 2, 3, 4)):
